@@ -162,6 +162,15 @@ def rio_reproject(
     return dst
 
 
+_SWAP_XY = Affine(0, 1, 0, 1, 0, 0)
+
+
+def _looks_ungeoreferenced(A: Affine) -> bool:
+    return A.almost_equals(Affine(1, 0, 0, 0, -1, 0)) or A.almost_equals(
+        Affine.identity()
+    )
+
+
 def _rio_reproject(
     src: np.ndarray,
     dst: np.ndarray,
@@ -220,13 +229,22 @@ def _rio_reproject(
             None if v is None else (255 if v else 0) for v in (src_nodata, dst_nodata)
         )
 
+    # rasterio/GDAL take a transform within 1e-5 of Affine(1, 0, 0, 0, +-1, 0) for "not
+    # georeferenced" and place the raster with y pointing down, hand such a raster
+    # over with rows and columns swapped (same pixels, transform no longer special)
+    wk_dst, dst_transform = _dst, d_gbox.transform
+    if src_transform is not None and _looks_ungeoreferenced(src_transform):
+        src, src_transform = src.T, src_transform * _SWAP_XY
+    if _looks_ungeoreferenced(dst_transform):
+        wk_dst, dst_transform = _dst.T, dst_transform * _SWAP_XY
+
     rasterio.warp.reproject(
         src,
-        _dst,
+        wk_dst,
         src_transform=src_transform,
         gcps=gcps,
         src_crs=str(s_gbox.crs),
-        dst_transform=d_gbox.transform,
+        dst_transform=dst_transform,
         dst_crs=str(d_gbox.crs),
         resampling=resampling,
         src_nodata=src_nodata,
